@@ -163,7 +163,24 @@ def sig_overthrottle(why, lines):
     return "refused with only" in why and "when this poll began and dropped below it before the request was read" in why
 
 
+def sig_wheel_lag(why, lines):
+    """A `DelayQueue::insert: invalid deadline` panic at a virtual time of 2^35 ms or more (the clock only moves by
+    `op advance <ns>`): the range of tokio-util's timer wheel is measured from the wheel's own `elapsed`, which only
+    an expiring timer moves."""
+    if "DelayQueue::insert: invalid deadline" not in why:
+        return False
+    now = 0
+    for l in lines:
+        m = re.match(r"^op advance (\d+)", l)
+        if m:
+            now += int(m.group(1))
+        if l.startswith("obs panic") and "invalid deadline" in l:
+            return now >= (2 ** 35) * 1_000_000
+    return False
+
+
 SIGNATURES = {
+    "timer-wheel-lag-after-2^35-ms": sig_wheel_lag,
     "limiter-at-limit-and-sink-not-ready": sig_limiter_stall,
     "overthrottle-after-drain-in-same-poll": sig_overthrottle,
 }
